@@ -290,6 +290,9 @@ func serverStream(w *mon.W, c *mon.Case, get func(scfg) *sengine, kind string, e
 			if res2.Hang {
 				key = "hang"
 			}
+			if w.Verbose {
+				fmt.Printf("---- whole:\n%s\n---- %s:\n%s\n", ref, name, got)
+			}
 			c.Violate(key, "server record differs under segmentation %s (stream of %d bytes, streaming=%v): %s", name, len(stream), cf.stream, firstDiff(ref, got))
 			return false
 		}
@@ -378,7 +381,7 @@ func clientRecord(stream bool, frags [][]byte, buf int) (string, *crig.Outcome) 
 	ce := cengines[stream]
 	if ce == nil {
 		d := &crig.Dialer{}
-		hc := crig.NewHostClient(d, &http1.ClientOptions{ResponseBodyStream: stream, MaxConns: 8})
+		hc := crig.NewHostClient(d, &http1.ClientOptions{ResponseBodyStream: stream, MaxConns: 8, MaxResponseBodySize: 1 << 20})
 		ce = &cengine{hc, d}
 		cengines[stream] = ce
 	}
